@@ -168,6 +168,23 @@ CLAIMED = {
              "are judged record by record.",
         note="Fragments that are not well-formed percent-encoded JSON Pointers are outside RFC 6901 and are skipped (counted).",
         design="5 C14"),
+    "C15": dict(
+        technique="TLA+ Resolver state machine (store, URL cache kinds, handler log, handler faults) model-checked by TLC with "
+                  "invariants FetchOnce / StoreStable / LocalNeverFetched / StoreSound and action property AnswersTransparent; "
+                  "every bounded history exported and replayed on real RefResolver objects; random long histories "
+                  "trace-validated against the same transition function (Trace_C15)",
+        text="The resolver's retrieval and caching behaviour is an explicit state machine; TLC explores every history of "
+             "resolutions over remote, store and metaschema documents and every URL spelling for 18 configurations "
+             "(cache_remote x cache function kind x handler fault modes), checks the property's clauses as invariants, and "
+             "exports each history with the answer, handler-call count and store contents expected after every step. The "
+             "replay drives a real RefResolver built with the same configuration (counting handlers that fail on demand, "
+             "pass-through or evicting cache functions, urlopen stubbed, requests absent) through resolve() and through "
+             "$ref validation and compares after every step. Random histories of up to 12 steps are recorded and TLC "
+             "searches for a model behaviour explaining each; the property's clauses are also evaluated on the observed "
+             "handler log and store.",
+        note="With caching off the property claims nothing about fetch counts; the model leaves open whether two spellings of "
+             "one URL share a cache entry, and the replay accepts any behaviour the model allows.",
+        design="5 C15"),
 }
 
 PENDING_REASON = "check not built yet in this round (framework under construction; DESIGN.md section 8 build order)"
